@@ -261,6 +261,7 @@ class Interp:
         self.fn_name = '?'
         self.frame_stack = []
         self.loop_index_stack = []     # index terms of the enclosing symbolic loops (arbitrary iteration)
+        self.loop_frame_stack = []     # arbitrary iterations being executed: declared object fields, new objects
         self.collect = None            # (code object, YSeq): the generator function under verification
 
     def current_function_name(self):
@@ -527,6 +528,7 @@ class Interp:
                 obj = tuple.__new__(cls, *args)
             else:
                 obj = object.__new__(cls)
+        self.note_new_object(obj)
         if isinstance(obj, cls):
             init = _static_lookup(cls, '__init__')
             if init is not None and isinstance(init[0], types.FunctionType) and _is_repo_function(init[0]):
@@ -633,9 +635,19 @@ class Interp:
         except Exception as e:
             raise PyRaise(e)
 
+    def note_new_object(self, obj):
+        for e in self.loop_frame_stack:
+            e['born'].add(id(obj))
+
     def setattr(self, obj, name, value):
         if isinstance(obj, (SOpt, SChoice)):
             obj = self.resolve(obj)
+        for e in self.loop_frame_stack:
+            # the arbitrary iteration of a loop with invariant: a store to a field of an object that existed
+            # before the iteration must be declared in the loop's `modifies` (it was havocked at the loop head)
+            if id(obj) not in e['born'] and (id(obj), name) not in e['declared'] and not isinstance(obj, type):
+                raise Unsupported('%s: the loop body stores to field %r of a %s that is not declared in modifies '
+                                  '(declare it as \'<local>.<attr>...\')' % (e['loop'], name, type(obj).__name__))
         if isinstance(obj, Opaque):
             return self.reg.opaque_setattr(self, obj, name, value)
         if isinstance(obj, Sym):
